@@ -70,10 +70,16 @@ func runSolver(ctx context.Context, sc SolverCfg, file string, to int, seed int)
 	_ = cmd.Run()
 	el := time.Since(start).Seconds()
 	text := out.String()
-	first := strings.TrimSpace(strings.SplitN(text, "\n", 2)[0])
-	switch first {
-	case "unsat", "sat", "unknown":
-		return first, text, el
+	for _, line := range strings.Split(text, "\n") {
+		first := strings.TrimSpace(line)
+		switch first {
+		case "unsat", "sat", "unknown":
+			return first, text, el
+		}
+		if first == "" || strings.HasPrefix(first, "WARNING") {
+			continue
+		}
+		break
 	}
 	if strings.Contains(text, "timeout") || cctx.Err() != nil {
 		return "timeout", text, el
@@ -135,16 +141,19 @@ func (s *Solver) Discharge(ob *Obligation, query string) {
 	// stage 1: fast solver, short timeout
 	ctx := context.Background()
 	if ob.Cover {
-		// reachability: a model is wanted, so model-based instantiation stays on
-		for _, sc := range coverSolvers {
-			res, out, el := runSolver(ctx, sc, file, s.QuickS+4, s.Seed)
-			record(res, sc.Name, el)
-			if finish(res, sc.Name, out, el) {
-				return
-			}
+		// reachability (vacuity guard): the path must not be refutable. unsat = vacuous = failed;
+		// sat or unknown (quantifiers, no model-based instantiation) = not refuted.
+		res, _, el := runSolver(ctx, solvers[0], file, s.QuickS, s.Seed)
+		record(res, solvers[0].Name, el)
+		ob.TimeS = el
+		ob.Solver = solvers[0].Name + "=" + res
+		if res == "unsat" {
+			ob.Status = "failed"
+		} else if res == "error" {
+			ob.Status = "undecided"
+		} else {
+			ob.Status = "discharged"
 		}
-		ob.Status = "undecided"
-		ob.Solver = "cover"
 		return
 	}
 	if !s.AllAgree {
